@@ -1250,7 +1250,7 @@ class Engine:
         elif isinstance(o, RefsDict):
             has = st.zh["refs_has"][o.owner.t][S(i)]
             if self.feasible(st, has):
-                yield ("val", LRef(st.zh["refs"][o.owner.t][S(i)]), st.assume(has))
+                yield ("val", LRef(st.zh["refs"][o.owner.t][S(i)], self.options.get("list_mk")), st.assume(has))
             if self.feasible(st, z3.Not(has)):
                 yield ("raise", Exc(KeyError), st.assume(z3.Not(has)))
         elif isinstance(o, Obj) and o.cls is not None and hasattr(o.cls, "__getitem__"):
